@@ -34,6 +34,7 @@ def _title(cps):
 def run(ctx):
     ev = ctx.ev
     binp = vlib.build_bin("bmformwm")
+    os.environ["GOMAXPROCS"] = str(min(8, vlib.NCPU))   # the replayers use that many workers; more Ps only add contention
     d = vlib.scratch_dir()
     ncpu = min(8, vlib.NCPU)
     errors = []
